@@ -151,6 +151,10 @@ def sprinkle(rng, ops, p_fail=0.25, p_poke=0.15):
             out.append(gen_fail_op(rng))
         if rng.random() < p_poke:
             out.append(gen_poke_op(rng))
+        if rng.random() < 0.08:
+            # the application hands the object on as a copy (copy.copy, copy.deepcopy, a pickle round trip to a worker):
+            # the copy is the same Weaver - working, reference and original series
+            out.append({"op": "clone", "how": rng.choice(["pickle", "pickle", "deepcopy", "copy"])})
         out.append(op)
     if rng.random() < p_fail:
         out.insert(rng.randint(0, len(out)), gen_fail_op(rng))
@@ -174,7 +178,7 @@ def snap(w, caller):
     out = {k: arr(v) for k, v in series.items()}
     out["types"] = {k: type(v).__name__ for k, v in series.items()}
     out["ndim"] = {k: (int(np.ndim(v)) if v is not None else -1) for k, v in series.items()}
-    out["caller"] = [None if c is None else [float(v) for v in c] for c in caller]
+    out["caller"] = [None if c is None else [float(v) for v in np.asarray(c, dtype=float).ravel()] for c in caller]
     al = []
     for k, v in series.items():
         for j, c in enumerate(caller):
@@ -658,7 +662,17 @@ def run_program(c):
                 continue
             try:
                 try:
-                    line = apply_op(w, op)
+                    if op["op"] == "clone":
+                        import copy as _copy
+                        import pickle as _pickle
+                        handed = getattr(w, "_verif_handed_in", None)
+                        w = {"pickle": lambda o: _pickle.loads(_pickle.dumps(o)), "deepcopy": _copy.deepcopy,
+                             "copy": _copy.copy}[op["how"]](w)
+                        if handed is not None:
+                            w._verif_handed_in = handed
+                        line = "wop shiftx 0"          # for the model: nothing happens
+                    else:
+                        line = apply_op(w, op)
                 except Skip:
                     continue
                 finally:
